@@ -2603,7 +2603,12 @@ int32 parseCertificateRequest(ssl_t *ssl,
         while (len >= 2)
         {
             uint32_t val = HASH_SIG_MASK(c[0], c[1]);
-            keySelect->peerSigAlgs[nSigAlg++] = val;
+            /* The list is as long as the peer likes, the array is not:
+               what does not fit still counts in the mask */
+            if (nSigAlg < TLS_MAX_SIGNATURE_ALGORITHMS)
+            {
+                keySelect->peerSigAlgs[nSigAlg++] = val;
+            }
             ssl->peerSigAlg |= val;
             c += 2;
             len -= 2;
